@@ -48,7 +48,19 @@ pub fn history(rng: &mut Rng, focus: &[KeyCode], all: &[KeyCode], len: usize) ->
     let mut ops = Vec::with_capacity(len);
     let mut k = *rng.pick(focus);
     let nx = extra_kb_op_names().len();
+    let magic = magic_key_sequences();
     while ops.len() < len {
+        if !magic.is_empty() && rng.below(40) == 0 {
+            // a run of keys that the tree's source spells out, typed as it stands, then the focus key
+            for mk in rng.pick(&magic).iter() {
+                ops.push(HOp::Ev(*mk, KeyState::Down));
+                if rng.bit() {
+                    ops.push(HOp::Ev(*mk, KeyState::Up));
+                }
+            }
+            ops.push(HOp::Ev(k, KeyState::Down));
+            continue;
+        }
         if nx > 0 && rng.below(20) == 0 {
             ops.push(HOp::Extra(rng.below(nx as u64) as usize));
             continue;
@@ -232,6 +244,43 @@ pub fn leaf_collision_pairs(li: usize, keys: &[KeyCode]) -> (Vec<PairObs>, u64, 
     (out, fingerprinted, pairs.len() as u64)
 }
 
+/// Histories built round the runs of key codes that the tree's source spells out (build.rs): each run in full and each
+/// proper prefix, typed with nothing / Alt / Ctrl / Shift / AltGr / Ctrl+Alt held, keys released or not, followed by other keys.
+pub fn magic_key_histories() -> Vec<Vec<HOp>> {
+    let mut out = Vec::new();
+    let follow = [KeyCode::A, KeyCode::F1, KeyCode::Numpad7, KeyCode::Return, KeyCode::Delete];
+    let ctxs: [&[KeyCode]; 6] = [&[], &[KeyCode::LAlt], &[KeyCode::LControl], &[KeyCode::LShift], &[KeyCode::RAltGr], &[KeyCode::LControl, KeyCode::LAlt]];
+    for seq in magic_key_sequences() {
+        for n in 1..=seq.len() {
+            for ctx in ctxs.iter() {
+                for release in [false, true] {
+                    let mut h: Vec<HOp> = ctx.iter().map(|m| HOp::Ev(*m, KeyState::Down)).collect();
+                    for k in &seq[..n] {
+                        h.push(HOp::Ev(*k, KeyState::Down));
+                        if release {
+                            h.push(HOp::Ev(*k, KeyState::Up));
+                        }
+                    }
+                    // what comes after the run: other keys, the run's own keys again, the modifiers released
+                    for f in follow.iter() {
+                        h.push(HOp::Ev(*f, KeyState::Down));
+                        h.push(HOp::Ev(*f, KeyState::Up));
+                    }
+                    for k in &seq[..n] {
+                        h.push(HOp::Ev(*k, KeyState::Down));
+                    }
+                    for m in ctx.iter() {
+                        h.push(HOp::Ev(*m, KeyState::Up));
+                    }
+                    h.push(HOp::Ev(seq[0], KeyState::Down));
+                    out.push(h);
+                }
+            }
+        }
+    }
+    out
+}
+
 pub fn through_decoder(prop: &str, rep: &mut Report, cube: &Cube, focus: &[KeyCode], acc: &dyn Fn(usize, usize, u16, usize) -> Acc) {
     let (n_hist, len) = if rep.thorough() { (4000usize, 400usize) } else { (120, 250) };
     let mut presses = 0u64;
@@ -266,6 +315,7 @@ pub fn through_decoder(prop: &str, rep: &mut Report, cube: &Cube, focus: &[KeyCo
             }
         }
     }
+    aba.extend(magic_key_histories());
     let n_aba = aba.len();
     for li in 0..cube.n_layouts {
         for h in 0..(n_hist + n_aba) {
